@@ -27,6 +27,7 @@
 //! - `bulk_insert`: Best throughput for large loads (100K+ rows)
 
 use crate::btree::{BTree, BTreeReader};
+use crate::constraints::ConstraintValidator;
 #[cfg(feature = "timing")]
 use crate::database::timing::{
     BTREE_INSERT_NS, INDEX_UPDATE_NS, INSERT_COUNT, MVCC_WRAP_NS, PAGE0_READ_NS, PAGE0_UPDATE_NS,
@@ -43,6 +44,7 @@ use std::sync::atomic::Ordering;
 
 /// A B-tree index of the table a bulk path loads rows into.
 struct LoadIndex {
+    name: String,
     storage: std::sync::Arc<parking_lot::RwLock<MmapStorage>>,
     col_indices: Vec<usize>,
     is_unique: bool,
@@ -111,6 +113,7 @@ impl Database {
         let table_id = table_def.id();
         let columns = table_def.columns().to_vec();
         let index_specs = Self::load_index_specs(table_def);
+        let table_def = table_def.clone();
 
         let schema = create_record_schema(&columns);
 
@@ -157,6 +160,12 @@ impl Database {
             None => None,
         };
         let rows = numbered_rows.as_deref().unwrap_or(rows);
+
+        let validator = ConstraintValidator::new(&table_def);
+        for row in rows {
+            validator.validate_not_null(row)?;
+            validator.validate_string_lengths(row)?;
+        }
 
         let table_file_key =
             crate::storage::FileManager::make_table_key(schema_name, table_name);
@@ -205,6 +214,7 @@ impl Database {
                     &mut record_buffer,
                 )?;
                 wrap_record_into_buffer(txn_id, &record_buffer, in_transaction, &mut mvcc_buffer);
+                Self::check_load_unique(&indexes, row_values, table_name, &mut key_buffer)?;
                 if in_transaction {
                     self.add_insert_write_entry(table_id as u32, &row_key);
                 }
@@ -232,6 +242,7 @@ impl Database {
                     &mut record_buffer,
                 )?;
                 wrap_record_into_buffer(txn_id, &record_buffer, in_transaction, &mut mvcc_buffer);
+                Self::check_load_unique(&indexes, row_values, table_name, &mut key_buffer)?;
                 if in_transaction {
                     self.add_insert_write_entry(table_id as u32, &row_key);
                 }
@@ -699,6 +710,7 @@ impl Database {
             let storage = file_manager.index_data_mut(schema_name, table_name, &name)?;
             let root_page = IndexFileHeader::from_bytes(storage.read().page(0)?)?.root_page();
             indexes.push(LoadIndex {
+                name,
                 storage,
                 col_indices,
                 is_unique,
@@ -706,6 +718,33 @@ impl Database {
             });
         }
         Ok(indexes)
+    }
+
+    /// Rejects a row whose PRIMARY KEY / UNIQUE key is already in the index, as INSERT does.
+    fn check_load_unique(
+        indexes: &[LoadIndex],
+        row: &[OwnedValue],
+        table_name: &str,
+        key_buffer: &mut Vec<u8>,
+    ) -> Result<()> {
+        for index in indexes.iter().filter(|index| index.is_unique) {
+            // (the row key is not part of a unique index key)
+            if !index.build_key(row, &[0; 8], key_buffer) {
+                continue;
+            }
+            let storage = index.storage.read();
+            if BTreeReader::new(&*storage, index.root_page)?
+                .get(key_buffer)?
+                .is_some()
+            {
+                bail!(
+                    "UNIQUE constraint violated on index '{}' in table '{}': value already exists",
+                    index.name,
+                    table_name
+                );
+            }
+        }
+        Ok(())
     }
 
     /// Adds the index entries of a stored row; their value is the row key.
